@@ -5,7 +5,8 @@
    every run: if a construct disappears from the source the corresponding theorem stops being provable. *)
 From Slsk Require Import Base.Tac.
 From SlskGen Require Import PortGen.
-From Slsk Require Import C11.Model C11.Proofs.
+From Slsk Require C10.Model C10.Proofs.
+From Slsk Require Import C11.Model C11.Proofs C11.Compose.
 Open Scope Z_scope.
 
 (* a connection is returned iff the direct or the indirect path works: both modes, every timing, every tie schedule *)
@@ -53,6 +54,29 @@ Theorem C11_responder : forall c w,
   (forall so, responder so c w = PierceSent <-> (c = RcOk /\ w = RsOk)) /\
   responder true RcOk RsFail = CannotConnectReported.
 Proof. intros c w. split; [apply responder_spec|split; [intros; apply responder_pierce_iff|apply responder_write_failure]]. Qed.
+
+(* C11 over C10: the connection object of the direct attempt, run through the C10 connection machine on the event
+   history the request imposes on it ([direct_history], Compose.v), ends quiescent; it is in the registry iff the
+   request returned it; when returned it is CONNECTED with an open writer, otherwise it has no open writer and is not
+   CONNECTING.  All scripts without cancellation, both modes, every tie schedule. *)
+Theorem C11_direct_object_refines : forall s,
+  cancel s = None -> delays_ok s ->
+  let c := direct_object s in
+  C10.Model.quiescent c = true /\ C10.Model.in_reg c = returned_direct s /\
+  (C10.Model.in_reg c = true -> C10.Model.st c = C10.Model.CONNECTED /\ C10.Model.writer c = C10.Model.WOpen) /\
+  (C10.Model.in_reg c = false -> C10.Model.writer c <> C10.Model.WOpen /\ C10.Model.st c <> C10.Model.CONNECTING).
+Proof. exact direct_object_registry. Qed.
+
+(* ... so the registry part of "nothing left behind" is C10's registry exactness applied to that object: it ought to be
+   registered (open, or being opened) iff the request returned it *)
+Theorem C11_registry_part_from_C10 : forall s,
+  cancel s = None -> delays_ok s ->
+  C10.Model.should_be_registered (direct_object s) = returned_direct s /\ r_connecting (result s) = false.
+Proof.
+  intros s Hc Hd. destruct (direct_object_registry s Hc Hd) as (Hq & Hr & _).
+  split; [|now destruct (direct_object_no_residue s Hc Hd)].
+  rewrite <- Hr. symmetry. unfold direct_object in *. now apply C10.Proofs.registry_exact.
+Qed.
 
 Example C11_nonvacuous :
   let s1 := mkS Fallback AReply 1 DRefused 2 IPierce 3 None BothDone in
